@@ -125,6 +125,41 @@ def one_synthetic(i, R, batch, stats):
     stats["events"] += len(evs)
 
 
+SHIPPED = [("geml.grammars.letter", "String"), ("geml.grammars.literals", "ExpLiteral"), ("geml.grammars.regex", "RE"),
+           ("geml.grammars.sgp", "Number"), ("geml.grammars.symbolic_regression", "Expression")]
+
+
+def one_shipped(modname, rootname, batch, stats):
+    """a grammar shipped with the repository (geml.grammars): all classes of the module, its abstract root as start symbol"""
+    import importlib
+    import inspect
+    mod = importlib.import_module(modname)
+    classes = [c for _, c in inspect.getmembers(mod, inspect.isclass) if c.__module__ == mod.__name__]
+    start = getattr(mod, rootname)
+    decl = declared_grammar(classes, start)
+    considered = [c for c in classes if c is not start]
+    evs = []
+    g0 = None
+    for mode in (False, True):
+        try:
+            with time_limit(10):
+                g = extract_grammar(considered, start, expansion_depthing=mode)
+            evs.append({"e": "analysis", "exc": "", "mode": mode, "impl": impl_grammar(g)})
+            if not mode:
+                g0 = g
+        except Exception as e:
+            evs.append({"e": "analysis", "exc": exc_name(e), "mode": mode, "impl": {"expd": mode}})
+    if g0 is not None:
+        try:
+            with time_limit(10):
+                u = g0.usable_grammar()
+            evs.append({"e": "usable", "exc": "", "impl": impl_grammar(u)})
+        except Exception as e:
+            evs.append({"e": "usable", "exc": exc_name(e), "impl": {"expd": False}})
+    batch.trace(f"shipped/{modname.split('.')[-1]}", evs, {"k": "grammar", "g": decl})
+    stats["events"] += len(evs)
+
+
 def main():
     a = std_args()
     R = rng(a.seed, "c05")
@@ -138,6 +173,8 @@ def main():
         one(spec, batch, stats, lang=(i % 10 == 0), staged=(i % 4 == 1))
     for i in range(40 if a.tier == "quick" else 800):
         one_synthetic(i, R, batch, stats)
+    for modname, rootname in SHIPPED:
+        one_shipped(modname, rootname, batch, stats)
     batch.traces = finalize(batch.traces)
     paths = batch.shards(a.out, a.shards)
     write_summary(a.out, {"batches": paths, "traces": len(batch.traces), "events": stats["events"]})
